@@ -792,6 +792,79 @@ func runMapConc(data json.RawMessage) vh.Verdict {
 	return fs.verdict(map[string]int{"concurrent_map_builds": 1, "concurrent_entries": c.N})
 }
 
+// runBytesBig (C09): tables with MANY items, so that the pointer table itself is long (hundreds of pointers of every
+// width 1..4 bytes) - the small behaviours TLC enumerates have at most five items.
+type bytesBigCase struct {
+	ID     int `json:"id"`
+	N      int `json:"n"`      // items
+	Size   int `json:"size"`   // bytes per item (items i%7==0 are empty, i%11==0 twice as long)
+	Offset int `json:"offset"` // the container starts at this offset of the output
+}
+
+func runBytesBig(data json.RawMessage) vh.Verdict {
+	var c bytesBigCase
+	if err := json.Unmarshal(data, &c); err != nil {
+		return vh.Fail("harness-json", "bad case: %v", err)
+	}
+	label := fmt.Sprintf("bytesbig n=%d size=%d offset=%d", c.N, c.Size, c.Offset)
+	item := func(i int) []byte {
+		n := c.Size
+		if i%7 == 0 {
+			n = 0
+		} else if i%11 == 0 {
+			n = 2 * c.Size
+		}
+		d := make([]byte, n)
+		for j := range d {
+			d[j] = byte(i*31 + j*7 + 1)
+		}
+		return d
+	}
+	var fs failures
+	p := vh.Catch(func() {
+		b := encoding.NewByteArraysBuilder(c.N)
+		for i := 0; i < c.N; i++ {
+			b.Reserve(i, len(item(i)))
+		}
+		b.FinishReservation()
+		var out encoding.Buffer
+		start := encoding.Offset(c.Offset)
+		end, err := b.WriteHeader(&out, start)
+		if err != nil {
+			fs.add(label+" header", "WriteHeader: %v", err)
+			return
+		}
+		for i := c.N - 1; i >= 0; i-- { // written in reverse order
+			if err := b.WriteItem(&out, i, item(i)); err != nil {
+				fs.add(label+" write", "WriteItem: %v", err)
+				return
+			}
+		}
+		if int(end-start) != b.Length() {
+			fs.add(label+" length", "WriteHeader returned end offset %d from %d but Length() = %d", end, start, b.Length())
+		}
+		out.WriteAt(bytes.Repeat([]byte{0xee}, 32), int64(end))
+		ba := encoding.NewByteArrays(out.Bytes()[start:])
+		if ba.NumItems() != c.N {
+			fs.add(label+" numitems", "NumItems() = %d, builder had %d", ba.NumItems(), c.N)
+			return
+		}
+		bad := 0
+		for i := 0; i < c.N; i++ {
+			if got, want := ba.Item(i), item(i); !bytes.Equal(got, want) {
+				bad++
+				if bad == 1 {
+					fs.add(label+" item", "Item(%d) has %d bytes, written %d bytes%s", i, len(got), len(want), firstDiff(got, want))
+				}
+			}
+		}
+	})
+	if p != "" {
+		fs.add(label+" panic", "%s", firstLine(p))
+	}
+	return fs.verdict(map[string]int{"big_tables": 1, "big_table_items": c.N})
+}
+
 func firstLine(s string) string {
 	if i := strings.IndexByte(s, '\n'); i >= 0 {
 		return s[:i]
@@ -814,5 +887,6 @@ func main() {
 	vh.RegisterFunc("bytes", runBytes)
 	vh.RegisterFunc("map", runMap)
 	vh.RegisterFunc("mapconc", runMapConc)
+	vh.RegisterFunc("bytesbig", runBytesBig)
 	vh.Main()
 }
